@@ -50,9 +50,16 @@ class _Os:
             stack = [cur + "/" + d for d in dirs] + stack
 
 
+class LiteralPathGlobbed(Exception):
+    """glob.glob was called for a path without '*' or '?': the user guide says such an
+    argument is the literal name of a file"""
+
+
 class _Glob:
     @staticmethod
     def glob(pattern):
+        if not ("*" in pattern or "?" in pattern):
+            raise LiteralPathGlobbed(pattern)
         idx = pattern.rfind("/")
         base, last = pattern[:idx], pattern[idx + 1:]
         if "*" in base or "?" in base:
@@ -101,9 +108,7 @@ class FsHarness:
         for c in cells:
             if not (0 < c < 0x110000) or c == 47 or (0xD800 <= c <= 0xDFFF):
                 return None
-        for c in cells[self.nn:]:
-            if c == 91 or c == 93:  # '[' ']' : character classes are outside the glob stub's contract
-                return None
+        self._bracket_with_wildcard = False
         pool = list(cells)
         names = [self._fill(n, pool, "?") for n in self.names]
         args = [self._fill(a, pool, "\x00") for a in self.args]
@@ -119,6 +124,9 @@ class FsHarness:
         if b is None:
             return SKIP
         names, args = b
+        for a in args:
+            if ("[" in a or "]" in a) and ("*" in a or "?" in a):
+                return SKIP  # character classes inside a real glob pattern: outside the stub's contract
         del TREE[:]
         TREE.extend([("/d", "d"), ("/d/" + names[0], "f"), ("/d/" + names[1], "f"), ("/d/s", "d"), ("/d/s/c.md", "f"), ("/d/s/e.txt", "f"), ("/d/s/t", "d"), ("/d/s/t/g.md", "f")])
         recurse = True if v["recurse"] else False
@@ -135,6 +143,8 @@ class FsHarness:
         if isinstance(obs, Raised):
             if obs.root_type == "NotImplementedError":
                 raise env.CrosshairUnsupported("glob stub contract")
+            if obs.root_type == "LiteralPathGlobbed":
+                return [{"kind": "literal-path-globbed", "detail": obs.describe()}]
             return [{"kind": "exception", "detail": obs.describe()}]
         got, got_rev, listed, outl, want, names, args, recurse = obs
         files, did_err, _ = got
